@@ -150,6 +150,22 @@ def run_engine_case(case):
     return res
 
 
+def run_engine_reduced(case):
+    """Second pass, run in a process that never evaluates the failing rules: for each (mode, transaction) the result of the file
+    WITHOUT the rules that failed for it (as determined by the first pass)."""
+    ds = case.get('data_sources') or {}
+    out = []
+    for mode, ti, skip in case['reduce']:
+        red = guarded(lambda: ME.parse_merchants(render_rules(case, skip_rules=set(skip))))
+        if 'ok' not in red:
+            out.append(red)
+            continue
+        red['ok'].match_mode = mode
+        txn = mk_txn(case['txns'][ti])
+        out.append(guarded(lambda: canon_match(red['ok'].match(dict(txn), data_sources=ds))))
+    return {'fresh_reduced': out}
+
+
 def run_rows_case(case):
     """parse_generic_csv with a rules engine containing ill-typed rules: no row and no source may be lost."""
     d = tempfile.mkdtemp(dir=case['workdir'])
@@ -260,6 +276,8 @@ def main():
         try:
             if k == 'engine':
                 res.append(run_engine_case(case))
+            elif k == 'engine_reduced':
+                res.append(run_engine_reduced(case))
             elif k == 'rows':
                 res.append(run_rows_case(case))
             elif k == 'views':
